@@ -67,12 +67,12 @@ func TestC14_ValidSchemasCompile(t *testing.T) {
 		set, feats := schema.GenSet(s, "vmod")
 		ws, err := NewWorkspace("vmod")
 		if err != nil {
-			rt.Fatalf("infrastructure: %v", err)
+			ev.InfraSkip(rt, c14, "%v", err)
 		}
 		defer ws.Remove()
 		key, msg, out := compileSet(ws, set, schema.Style{S: s})
 		if key == "infra" {
-			rt.Fatalf("infrastructure: %s", msg)
+			ev.InfraSkip(rt, c14, "%s", msg)
 		}
 		if key != "" {
 			ev.Violation(rt, c14, key, c14case{Sources: setSources(set), Output: clipOut(out)}, "%s", msg)
@@ -158,7 +158,7 @@ func TestC14_SingleRuleMutants(t *testing.T) {
 		}
 		ws, err := NewWorkspace("vmod")
 		if err != nil {
-			rt.Fatalf("infrastructure: %v", err)
+			ev.InfraSkip(rt, c14, "%v", err)
 		}
 		defer ws.Remove()
 		for _, op := range schema.Operators {
@@ -182,7 +182,7 @@ func TestC14_SingleRuleMutants(t *testing.T) {
 			bad := ""
 			switch outcome {
 			case "infra":
-				rt.Fatalf("infrastructure: %s", out)
+				ev.InfraSkip(rt, c14, "%s", out)
 			case "panic":
 				bad = "the compiler panicked"
 			case "hang":
